@@ -411,8 +411,33 @@ Definition wf (c : case) : bool :=
   (* the parent chain is finite (no cycle) as far as it can be followed *)
   && match model_sys c with RDiverge => false | _ => true end.
 
-(* known-finding classes (see KNOWN_FINDINGS) *)
-Definition kf (c : case) : N := 0%N.
+(* known-finding classes (see KNOWN_FINDINGS).
+   1: a package that can be selected has, active under its USE flags, an any-of / exactly-one-of /
+      at-most-one-of group one of whose alternatives is itself a group (parenthesised all-of,
+      USE-conditional or nested group).  ResolveSomeOf flattens such alternatives: it counts
+      packages instead of satisfied alternatives and lets a failing nested group abort the run. *)
+Definition is_grp (d : dep) : bool := match d with DGrp _ _ => true | DAtom _ => false end.
+Fixpoint compound_alt (use : bytes -> bool) (d : dep) : bool :=
+  match d with
+  | DAtom _ => false
+  | DGrp k l =>
+    match k with
+    | GUse f => use f && existsb (compound_alt use) l
+    | GNuse f => negb (use f) && existsb (compound_alt use) l
+    | GAll => existsb (compound_alt use) l
+    | GAny | GOne | GMost => existsb is_grp l
+    end
+  end.
+Definition kf (c : case) : N :=
+  match spec_request c with
+  | Some rq =>
+    if existsb (fun i => match pkg_at (c_vdb c) i with
+                         | Some p => existsb (compound_alt (spec_use p)) (top_deps (c_bdeps c) p)
+                         | None => false
+                         end) (maxclosure (c_vdb c) (c_bdeps c) rq)
+    then 1%N else 0%N
+  | None => 0%N
+  end.
 
 Definition verdict (c : case) : N :=
   mkverdict (wf c) (obs_beq (model c) (c_obs c)) (spec c (c_obs c)) (kf c).
